@@ -131,6 +131,24 @@ pub fn c06(tier: &str) -> i32 {
         searches.push(mk("composite unique index m(a, b): bounds on the leading column, on the non-leading column, and on both", prefix, alpha, if quick { 3 } else { 5 }, if quick { 3_000 } else { 400_000 }));
     }
     {
+        // composite indexes created on the POPULATED table, with the columns declared in table order and against it
+        let m = TableDef::simple("m", &[("a", ColTy::Int), ("b", ColTy::Int), ("v", ColTy::Int)]);
+        let ins3 = |rows: &[(i128, i128, i128)]| Stmt::Insert { table: "m".into(), rows: rows.iter().map(|(x, y, z)| vec![i(*x), i(*y), i(*z)]).collect() };
+        let prefix = vec![Op::Auto(Stmt::CreateTable(m)), Op::Auto(ins3(&[(0, 9, 1), (2, 1, 2), (1, 3, 3), (3, 0, 4)]))];
+        let alpha = vec![
+            Op::Auto(Stmt::CreateUniqueIndex { name: "m_ba".into(), table: "m".into(), cols: vec!["b".into(), "a".into()] }),
+            Op::Auto(Stmt::CreateUniqueIndex { name: "m_ab".into(), table: "m".into(), cols: vec!["a".into(), "b".into()] }),
+            Op::Auto(Stmt::CreateUniqueIndex { name: "m_vb".into(), table: "m".into(), cols: vec!["v".into(), "b".into()] }),
+            Op::Auto(ins3(&[(1, 0, 5)])),
+            Op::Auto(ins3(&[(0, 1, 6), (9, 9, 7)])),
+            Op::Auto(ins3(&[(2, 1, 8)])),
+            Op::Auto(Stmt::Delete { table: "m".into(), pred: Some(("b".into(), i(9))) }),
+            Op::Analyze,
+            Op::Reopen,
+        ];
+        searches.push(mk("composite unique indexes created on the populated m(a, b, v) with the columns in table order (a, b) and against it (b, a), (v, b); later inserts incl. a duplicate of an existing (a, b); the same bound classes", prefix, alpha, if quick { 3 } else { 5 }, if quick { 3_000 } else { 400_000 }));
+    }
+    {
         // asymmetric sizes: p has 2 rows, g has 200 rows of 100 bytes (several pages); ANALYZE is in the alphabet
         let g = TableDef::simple("g", &[("k", ColTy::Int), ("w", ColTy::Text)]);
         let mut prefix = vec![Op::Auto(Stmt::CreateTable(p_plain.clone())), Op::Auto(Stmt::CreateTable(g)), Op::Auto(ins("p", &[(1, 10), (2, 20)]))];
